@@ -291,6 +291,7 @@ func (r *Reliable) send() {
 			r.log.WithField("numFrames", numFrames).Trace("window open")
 
 			numQueued := 0
+			queueFull := false
 
 			for i := 0; i < len(r.sender.frames) && numQueued < numFrames; i++ {
 				windowFrame := &r.sender.frames[i]
@@ -301,10 +302,23 @@ func (r *Reliable) send() {
 						"unacked":  r.sender.unacked,
 					}).Trace("Window sending")
 
+					// This goroutine is the queue's only consumer and holds the tube
+					// lock: it must not wait for room. Retry once the queue has drained.
+					select {
+					case r.sender.sendQueue <- windowFrame.frame:
+					default:
+						queueFull = true
+					}
+					if queueFull {
+						select {
+						case r.sender.senderWindow.windowOpen <- struct{}{}:
+						default:
+						}
+						break
+					}
+
 					windowFrame.Time = time.Now()
 					windowFrame.queued = true
-
-					r.sender.sendQueue <- windowFrame.frame
 
 					r.sender.unacked++
 
@@ -706,7 +720,12 @@ func (r *Reliable) sendFrameByNumberLocked(frameNo uint32) {
 		rtrFrameStruct := r.sender.frames[i]
 		if rtrFrameStruct.frameNo == frameNo && rtrFrameStruct.queued {
 			rtrFrameStruct.Time = time.Now()
-			r.sender.prioritySendQueue <- rtrFrameStruct.frame
+			// Never wait for room while holding the tube lock (see sendEmptyPacket);
+			// the fast retransmission is an optimisation, the RTO covers the frame.
+			select {
+			case r.sender.prioritySendQueue <- rtrFrameStruct.frame:
+			default:
+			}
 			if common.Debug {
 				logrus.Debugf("Frame %v found and prority sent", frameNo)
 			}
